@@ -478,6 +478,12 @@ def run(samples):
                 seen.add(key)
                 _CTX.violation("build_sampler refuses an accepted graph with a valid loop signature (cycle basis): " + str(r.get("msg"))[:160],
                                small_req(s), expected="a sampler", observed=str(r.get("msg"))[:200])
+    # once per check: a few of the samples through the crate as a default-feature user builds it (no `log`, debug assertions on), with
+    # print_debug_info off and on - code that exists only in that build or only behind the debug flag belongs to every property
+    if _CTX is not None and not _CTX.extra.get("_nolog_done") and len(samples) >= 4:
+        _CTX.extra["_nolog_done"] = True
+        from . import sample_checks as SC
+        SC.nolog_agreement(_CTX, samples[:: max(1, len(samples) // 12)], k=12)
     return samples
 
 
